@@ -2,7 +2,7 @@
 
 
 def _ob(name, module, factory, kwargs, **extra):
-    d = dict(name=name, spec=(module, factory, kwargs), bounds=dict(kwargs))
+    d = dict(name=name, spec=(module, factory, kwargs), bounds=dict(kwargs), opts=dict(path_seconds=8))
     d.update(extra)
     return d
 
@@ -93,6 +93,17 @@ def c20(tier):
             _ob("K-events/3", KR, "k_events", dict(max_events=3, nstamps=3, ndata=2))] + k_tally(tier)
 
 
+KC = "harness.k_config"
+
+
+def c17(tier):
+    return [
+        _ob("K-roundtrip", KC, "k_roundtrip", dict(N=3, G=2 if tier == "quick" else 3)),
+        _ob("K-config", KC, "k_config", dict(N=2, G=2), **_HO),
+        _ob("K-runtime", KC, "k_runtime", dict(N=2 if tier == "quick" else 3, G=2)),
+    ]
+
+
 def obligations(prop, tier):
     table = {
         "C01": lambda t: k_batch(t) + h_submit(t),
@@ -104,6 +115,7 @@ def obligations(prop, tier):
         "C07": lambda t: k_batch(t) + h_submit(t) + h_dry(t),
         "C09": h_submit,
         "C12": h_lost,
+        "C17": c17,
         "C18": c18,
         "C20": c20,
     }
